@@ -122,7 +122,11 @@ func main() {
 				fmt.Fprintf(w, "#RUN %s\n", line)
 				w.Flush()
 			}
+			t0 := time.Now()
 			out := runCase(line)
+			if d := time.Since(t0); d > 50*time.Millisecond && os.Getenv("VERIF_TIMING") != "" {
+				fmt.Fprintf(os.Stderr, "SLOW %v %s\n", d, line)
+			}
 			fmt.Fprintf(w, "%s\t%s\n", line, out)
 			if strings.Contains(out, "TIMEOUT") || strings.Contains(out, "BLOCKED") || strings.Contains(out, "GOROUTINES-LEFT") {
 				// the abandoned goroutine may be spinning: report this case and stop generating
